@@ -41,11 +41,13 @@ let () = each_line (fun l ->
       let impl = read_pairs tr np in
       if sz <> m then add "size";
       if not (rel_same impl (output (n_of_int m) model)) then add "exact" in
-    for m = 0 to n do
-      expect tr "O"; let m' = num tr in
-      if m' <> m then failwith "model: output groups out of order";
-      group m
+    let last = ref (-1) in
+    while peek tr = Some "O" do
+      expect tr "O"; let m = num tr in
+      if m <= !last || m > n then failwith "model: output groups out of order";
+      last := m; group m
     done;
+    if !last <> n then failwith "model: the group for the full output size is missing";
     if kind = "ltsd" then begin expect tr "F"; group n end;
     let labels = List.length (List.sort_uniq compare (List.map (fun ((_, a), _) -> int_of_n a) es)) in
     let offdiag = List.exists (fun (a, b) -> a <> b) model in
